@@ -367,10 +367,10 @@ def _cases_for(ctx, e, deep):
         lim = 49
         if e.kind in ("den2d", "gru"):
             sizes = [(h, w) for h in range(1, lim) for w in range(1, lim) if e.admissible(h, w)]
-            if e.family in ("didn", "multidomainnet") or "L3" in e.name or "L4" in e.name:
-                sizes = [s for s in sizes if (s[0] + s[1]) % 3 == 0 or min(s) <= 6]      # budget: every third diagonal
+            if e.family == "multidomainnet":
+                sizes = [s for s in sizes if (s[0] + s[1]) % 3 == 0 or min(s) <= 6]      # budget (FFT in every conv): every third diagonal
         else:
-            sizes = _size_sample(rng, e, 40 if e.kind == "recon" else 20, lim=49)
+            sizes = _size_sample(rng, e, 80 if e.kind == "recon" else 60, lim=49)
     else:
         sizes = _size_sample(rng, e, 9 if e.kind in ("den2d", "gru") else 6)
     for i, (h, w) in enumerate(sizes):
